@@ -365,6 +365,11 @@ func (w *World) enter() {
 	}
 }
 
+// Unwinding reports whether the calling task is being torn down by the
+// kernel at the end of a run (its deferred functions run then: a deferred
+// "done = true" must not count a blocked task as finished).
+func Unwinding() bool { return W != nil && W.cur != nil && W.cur.killed }
+
 // Active reports whether a simulated run is in progress and the caller is one
 // of its tasks (sim primitives degrade to trivial sequential behaviour
 // otherwise).
